@@ -233,7 +233,7 @@ structure Cfg where
 exchange's own `assert_eq!`) and both assets of every instrument have a balance (the exchange's own
 `expect`). -/
 def Cfg.wf (c : Cfg) : Bool :=
-  c.init.all (fun p => p.1 == p.2) &&
+  c.init.all (fun p => decide (p.1 = p.2)) &&
   c.instruments.all (fun u => decide (u.base < c.init.length) && decide (u.quote < c.init.length))
 
 /-- `MockExchange::new` (mod.rs:53-70), `AccountState::from` (account.rs:77-137); the harness stamps
